@@ -266,4 +266,78 @@ def r19_3(ctx: Ctx) -> RuleResult:
     return rr
 
 
-RULES = [r19_1, r19_2, r19_3]
+def r19_4(ctx: Ctx) -> RuleResult:
+    """Every selected value is written at its location: the store at the last
+    part is reached on every path through the insertion helper."""
+    from .common import must_flow
+
+    rr = RuleResult("R19.4", "every selected value is stored at its location, unconditionally", floor=1)
+    fn = ctx.repo.require_func("jsonpath.fluent_api._patch_obj")
+    params = [a.arg for a in fn.node.args.args]
+    if len(params) < 3:
+        raise AnalysisError("R19.4: _patch_obj(parts, obj, value) signature changed")
+    parts, value = params[0], params[2]
+
+    def stmt_events(s_: ast.stmt) -> List[str]:
+        if isinstance(s_, ast.Assign) and isinstance(s_.targets[0], ast.Subscript):
+            t = s_.targets[0]
+            if ast.unparse(t.slice) == f"{parts}[-1]" and any(
+                isinstance(x, ast.Name) and x.id == value for x in ast.walk(s_.value)
+            ):
+                return ["stored@"]
+        return []
+
+    flow = must_flow(fn.node, stmt_events=stmt_events)
+    exits = [(k, n, st) for k, n, st in flow.exits if k in ("return", "fall")]
+    if not exits:
+        raise AnalysisError("R19.4: _patch_obj has no normal exit")
+    if all("stored@" in st for _, _, st in exits):
+        rr.ok(fn.loc(), f"_patch_obj: `<container>[{parts}[-1]] = <{value}>` on every path")
+    else:
+        rr.bad(fn, fn.node, "a selected value is not stored on some path through the insertion helper (e.g. when "
+               "the slot is already occupied by an earlier, deeper selection): the projection then lacks that value",
+               construct="_patch_obj: conditional store of the selected value")
+    return rr
+
+
+def r19_5(ctx: Ctx) -> RuleResult:
+    """An empty object stays an object: a mapping is only turned into an array
+    when it is known to be non-empty (and keyed by array indices)."""
+    from .common import must_flow
+
+    rr = RuleResult("R19.5", "only non-empty integer-keyed levels become arrays", floor=1)
+    fn = ctx.repo.require_func("jsonpath.fluent_api._fix_sparse_arrays")
+    obj = fn.node.args.args[0].arg
+
+    def refine(test: ast.expr, branch: bool) -> List[str]:
+        if path_of(test) == obj and branch:
+            return ["nonempty@"]
+        return []
+
+    def expr_events(e: ast.expr) -> List[str]:
+        # next(iter(obj)) can only be evaluated on a non-empty container
+        if isinstance(e, ast.Call) and callee_name(e) == "next" and e.args and isinstance(e.args[0], ast.Call) and callee_name(e.args[0]) == "iter":
+            if e.args[0].args and path_of(e.args[0].args[0]) == obj and len(e.args) == 1:
+                return ["nonempty@"]
+        return []
+
+    flow = must_flow(fn.node, refine_events=refine, expr_events=expr_events)
+    n = 0
+    for r in [x for x in ast.walk(fn.node) if isinstance(x, ast.Return)]:
+        v = r.value
+        is_list_from_values = isinstance(v, (ast.ListComp, ast.List)) or (isinstance(v, ast.Call) and callee_name(v) == "list")
+        if not is_list_from_values or f"{obj}.values()" not in ast.unparse(v):
+            continue
+        n += 1
+        st = flow.pre.get(id(r)) or frozenset()
+        if "nonempty@" in st:
+            rr.ok(fn.loc(r), "a mapping becomes an array only when it is non-empty")
+        else:
+            rr.bad(fn, r, "a mapping can be turned into an array without being known to be non-empty: an empty "
+                   "object `{}` inside a selected value would come out as `[]`", construct=short(r))
+    if n == 0:
+        raise AnalysisError("R19.5: the mapping-to-array conversion was not found in _fix_sparse_arrays")
+    return rr
+
+
+RULES = [r19_1, r19_2, r19_3, r19_4, r19_5]
